@@ -4,8 +4,9 @@ sys.path.insert(0, os.path.join(os.path.dirname(os.path.abspath(__file__)), ".."
 from lib import vcommon
 
 ENGINE_DIR = os.path.join(vcommon.VERIF, "engine", "gosym")
-GOSYM = os.path.join(ENGINE_DIR, "gosym")
-HARNESS = os.path.join(vcommon.VERIF, "harness", "go")
+# VERIF_GOSYM_BIN / VERIF_HARNESS_DIR: development overrides (a prebuilt engine binary, a scratch copy of the harness tree)
+GOSYM = os.environ.get("VERIF_GOSYM_BIN") or os.path.join(ENGINE_DIR, "gosym")
+HARNESS = os.environ.get("VERIF_HARNESS_DIR") or os.path.join(vcommon.VERIF, "harness", "go")
 TOOLING = os.path.join(vcommon.REPO, "tooling")
 MOD = "github.com/microsoft/yardl/tooling/"
 GOENV = dict(os.environ, GOFLAGS="-mod=mod", GOPROXY="off")
@@ -23,6 +24,8 @@ STUBS = [
 
 
 def ensure_engine():
+    if os.environ.get("VERIF_GOSYM_BIN"):
+        return
     srcs = []
     for root, _, files in os.walk(ENGINE_DIR):
         for f in files:
@@ -200,9 +203,15 @@ def gosym_part(prop, tier, seed, name, entry, args_quick=(), args_thorough=None,
     # native replay: all violating assertion models + sample of ordinary paths
     cases, meta = [], {}
     cid = 0
+    replay_keys = set()
     for pr in rr["violations"] or []:
         for a in pr["asserts"]:
             if a["status"] == "violated" and a.get("events") is not None:
+                # only the first counterexample of a violation key is reported (see seen_keys below): replay only that one
+                k = key_fn(a["id"], a["events"], pr.get("outs") or []) if key_fn else "%s:%s" % (name, a["id"])
+                if k in replay_keys:
+                    continue
+                replay_keys.add(k)
                 cid += 1
                 cases.append({"id": cid, "events": a["events"] or []})
                 meta[cid] = ("violation", pr, a)
